@@ -577,7 +577,13 @@ impl<'l, Data> EventLoop<'l, Data> {
                     .inner
                     .pending_action
                     .replace(PostAction::Continue);
-                let mut ret = ret?;
+                // if the source failed, the error is propagated once the book-keeping below is done:
+                // a source that removed itself from within its callback must still be unregistered
+                let mut failure = None;
+                let mut ret = ret.unwrap_or_else(|err| {
+                    failure = Some(err);
+                    PostAction::Continue
+                });
                 if let PostAction::Continue = ret {
                     ret = pending_action;
                 }
@@ -646,6 +652,10 @@ impl<'l, Data> EventLoop<'l, Data> {
                     ) {
                         warn!("Failed to unregister source from the polling system: {e:?}",);
                     }
+                }
+
+                if let Some(err) = failure {
+                    return Err(err);
                 }
             } else {
                 warn!(?reg_token, "Received an event for non-existent source");
